@@ -18,7 +18,7 @@ from ..gen import c01_misc as MI
 from ..gen import c01_rs as RS
 
 PID = "C01"
-COQ_HEADER = ("From Coq Require Import List NArith ZArith.\nFrom SK Require Import lib.Tok lib.LGraph model.C01_Model model.C02_Model model.C01_Opts model.C01_String model.C01_Attrs model.C01_CleanWc model.C01_Rsmi model.C01_Nbrs model.C01_Conv model.C01_G2M.\nFrom Coq Require Import String.\n"
+COQ_HEADER = ("From Coq Require Import List NArith ZArith.\nFrom SK Require Import lib.Tok lib.LGraph model.C01_Model model.C02_Model model.C01_Opts model.C01_String model.C01_Attrs model.C01_CleanWc model.C01_Rsmi model.C01_Nbrs model.C01_Conv model.C01_G2M model.C01_Rewrite.\nFrom Coq Require Import String.\n"
               "Import ListNotations.\nOpen Scope Z_scope.\n")
 SHARD = 400
 IMPL_TIMEOUT = 1500
@@ -96,7 +96,7 @@ TESTED_NOT_PROVED = [
     "case with default options, and the str-* oracle requires exactly one '>>' in what its_to_rsmi writes",
     "implicit_hydrogen keeps every non-hydrogen atom's total H on graphs whose hydrogens have one bond: oracle on every ih case (theorem C01_implicit_hydrogen for all well-formed graphs)",
 ]
-LEVEL_TEXT = ("Machine-checked proof (Coq, 41 theorems) over an executable model of ITSConstruction.construct/ITSGraph and its_decompose: for all well-formed "
+LEVEL_TEXT = ("Machine-checked proof (Coq, 42 theorems) over an executable model of ITSConstruction.construct/ITSGraph and its_decompose: for all well-formed "
               "reactant/product graphs on the same node set with positive bond orders, decompose(construct(G,H)) returns exactly G and H "
               "(atoms, element, aromaticity, hydrogen count, charge, atom_map = node id, every bond with its order) - for every value of "
               "ignore_aromaticity, balance_its, store and attributes_defaults; the ITS has exactly the union of the nodes and bonds, every bond "
@@ -153,6 +153,8 @@ def impl(case):
         return RS.obs_conv(case)
     if k == "g2m-abs":
         return T.obs_g2m(case["G"], case["ibo"], case["uhc"])
+    if k == "rw-premise":
+        return RS.obs_rw_premise(case)
     if k == "api-misc":
         return MI.obs(case)
     if k == "attrs":
@@ -206,6 +208,8 @@ def coq_case(case):
             return RS.coq_conv(case)
         if k == "g2m-abs":
             return RS.coq_g2m_abs(case)
+        if k == "rw-premise":
+            return RS.coq_rw_premise(case)
         if k == "api-misc":
             return MI.coq(case)
         if k == "attrs":
@@ -435,7 +439,7 @@ def ih_clauses(gjson, pres):
 def oracle(case):
     if case.get("kind") == "ih":
         return ih_clauses(case["G"], case["pres"])
-    if case.get("kind") in ("m2g", "g2r", "g2m", "cwc", "rs-split", "conv-hist", "g2m-abs"):
+    if case.get("kind") in ("m2g", "g2r", "g2m", "cwc", "rs-split", "conv-hist", "g2m-abs", "rw-premise"):
         return []
     if case.get("kind") == "rs-str":
         return RS.oracle_rs(case, R.well_formed)
@@ -509,7 +513,7 @@ def neighbours(case, rng):
 def nontrivial(case, obs):
     if case.get("kind") == "ih":
         return bool(case["pres"]) and any(a["element"] == "H" for _, a in case["G"]["nodes"])
-    if case.get("kind") in ("m2g", "g2r", "g2m", "api-misc", "attrs", "cwc", "rs-split", "rs-str", "conv-hist", "g2m-abs"):
+    if case.get("kind") in ("m2g", "g2r", "g2m", "api-misc", "attrs", "cwc", "rs-split", "rs-str", "conv-hist", "g2m-abs", "rw-premise"):
         return False
     if case.get("kind", "").startswith("hist-"):
         return True
@@ -550,7 +554,9 @@ def distribution(cases, obss):
             if k.startswith("hist-"):
                 extra["history_steps"] = extra.get("history_steps", 0) + len(c["steps"])
                 continue
-            if k in ("g2r", "g2m", "api-misc", "attrs", "cwc", "rs-split", "rs-str", "conv-hist", "g2m-abs"):
+            if k in ("g2r", "g2m", "api-misc", "attrs", "cwc", "rs-split", "rs-str", "conv-hist", "g2m-abs", "rw-premise"):
+                if k == "rw-premise":
+                    extra["rw_premise_holds"] = extra.get("rw_premise_holds", 0) + (o == [True, True] or o == [1, 1])
                 if k == "rs-str":
                     extra["rs_non_default_options"] = extra.get("rs_non_default_options", 0) + (c["o"] != [True, True, True, False, False] or c["w"] != [True, False, False])
                     extra["rs_its_raises"] = extra.get("rs_its_raises", 0) + (isinstance(o, list) and len(o) == 5 and o[3] == [2])
@@ -1057,6 +1063,7 @@ def gen_histories(rsmi_cases, rng, n_str, n_pair):
     extra += RS.gen_rs(rs, list(HAND_STR), rng, max(24, n_str // 2), max(70, n_str * 2))
     extra += RS.gen_conv(rs, rng, max(30, n_str // 2))
     extra += RS.gen_g2m_abs(gen_ih(rng, max(40, n_pair // 3)), rng)
+    extra += RS.gen_rw_premise(rs, rng, max(40, n_str))
     return HI.gen_hist_str(rs, rng, n_str) + HI.gen_hist_pair(pairs, rng, n_pair, _opts) + extra
 
 
